@@ -6,6 +6,7 @@ import Proofs.Lemmas.TangentBounds
 import Proofs.Lemmas.TangentBern
 import Proofs.Lemmas.TangentLog
 import Proofs.Lemmas.TangentAux
+import Proofs.Lemmas.TangentAD
 import Mathlib.NumberTheory.Bernoulli
 /-!
 # C05 — Adj, AdjT, Retr, +, Jinvp, Jr satisfy their defining tangent-space identities
@@ -14,6 +15,34 @@ All statements are over the model of `operation.py` / `lietensor.py` (`Pose/Mode
 `α = ℝ`, for every `eps ≥ 0` (the dtype's machine epsilon is a parameter), every valid group element and every tangent
 vector.  `…_partial` theorems state what holds where the exact clause does not (small-angle Taylor branches).
 Floating-point round-off is outside the theorems and is measured by the correspondence check.
+
+## Reading guide: what the statements are about, and what is NOT proved here
+
+* Quaternion-level `*_Adj_identity`/`*_AdjT_identity`, `*_Retr_*`, `*_add_*`, `*_Jinvp_*`, `so3Jr_*` are about the MODEL's coded
+  `Exp`/`Log` (all branches as written).
+* Matrix-level `*_hat_Adj(T)` / `*_exp_Adj(T)` are about `matrix(X)` of the model and MATHLIB's analytic `NormedSpace.exp` of the hat
+  matrix `â`.  They hold for every tangent vector but say nothing about the model's coded `Exp` by themselves: on the closed-form
+  branches `matrix(Exp a) = exp(â)` is C01's `*_blocks_all`; on the Taylor branches the coded `Exp` differs from `exp(â)` and NO theorem of
+  this file (or a combination with C01 stated here) bounds `‖matrix(X)·matrix(Exp a) − matrix(Exp(Adj X a))·matrix(X)‖` there.
+  What is stated about the coded `Exp` on Taylor branches: SO3/RxSO3 exact (every `a`); SE3 `0<θ≤eps` with a bounded residual
+  (`SE3_Adj_identity_taylor_partial` + `se3_taylor_defect_bounds`, Adj only — NOT AdjT); Sim3 `0<θ≤eps` or `0<|σ|≤eps` only the
+  algebraic unfolding `Sim3_Adj_residual_partial` (no bound: that theorem is an exact rewriting, not a size statement) and nothing for AdjT.
+* `SE3_Jinvp_spec/_unique/_spec_valid` hold for ANY 3×3 matrix in the place of `calcQ` (the block inverse of a block-triangular matrix does
+  not depend on what the off-diagonal block is).  The content of `calcQ` enters only `SE3_Jinvp_first_order` (via C04's `SE3Log_tangent`),
+  which needs `θ > 0.05` (closed-form coefficients).  For `θ ≤ 0.05` (series coefficients) the correctness of the `Q` block rests on the
+  mpmath oracle of the correspondence check; the only theorem-level fact there is `calcQ_coef1/2/3_agree` + `calcQWith_sub` (for `0 < θ ≤ 1` the
+  series coefficients are within `θ⁶/300000` of the closed-form ones, ≤ 5.3e-14 below the switch) — and that the closed-form coefficients are the
+  right ones on `0 < θ ≤ 0.05` is itself not a theorem (C04's derivative theorem is stated for `θ > 0.05` only).
+* `Jinvp` on `‖Log X‖ ≤ eps`: `SO3_Jinvp_spec_taylor_partial` (exact defect polynomial), identity-element theorems `*_Jinvp_one`.  There is
+  no uniqueness theorem for Sim3 (truncation; see `sim3JlInv_*`).
+* No Log-side statement (`Log(Exp(τ)·X) = Log X + Jinvp(X,τ) + o(τ)`) beyond the derivative form `SO3/SE3_Jinvp_first_order`; RxSO3/Sim3
+  have no first-order theorem here (RxSO3: C04's `RxSO3Log_tangent` is the derivative of `Log`; Sim3 `Jinvp` is a truncation, so the exact
+  clause is false and only the distance theorems hold).
+* `Jr`: `so3Jr_eq_Jl_neg`, `so3Exp_matrix_mul_Jr`, `so3Jr_hasDerivAt` hold on `eps < ‖x‖` (and `so3Jr_zero`/`so3Jr_small_angle` say the code returns
+  exactly `1` on `‖x‖ ≤ eps`).  On `0 < ‖x‖ ≤ eps` the defining clause `Jr = Jl(−x)` is FALSE for the code (it returns `1`, off by `O(eps)`);
+  this is disclosed, not proved around.
+* Batching/broadcasting of `Adj/AdjT/Jinvp/Jr` (including the empty-batch `dim = a.shape[-1]` branch of `Adj`) is not modelled here: it is
+  C06's subject and is exercised by the correspondence check (shape pairs incl. empty); only `+`/`Retr` have a batched model (`lieAdd`).
 -/
 set_option linter.unusedSimpArgs false
 set_option linter.unusedVariables false
@@ -384,6 +413,14 @@ theorem RxSO3_Jinvp_spec (eps : ℝ) (h0 : 0 ≤ eps) (X : RxSO3 ℝ) (p : rxso3
   unfold rxso3Jl rxso3JlInv rxso3.toList
   rw [block31_mulVec, block31_mulVec, ← Mat3.mul_mulVec, so3Jl_mul_so3JlInv eps h0 _ h hs, Mat3.one_mulVec]
 
+/-- … and is the only solution (RxSO3) -/
+theorem RxSO3_Jinvp_unique (eps : ℝ) (h0 : 0 ≤ eps) (X : RxSO3 ℝ) (p y : rxso3 ℝ) (h : eps < (RxSO3Log eps X).phi.norm)
+    (hs : Real.sin (1 / 2 * (RxSO3Log eps X).phi.norm) ≠ 0)
+    (hy : (rxso3Jl eps (RxSO3Log eps X)).mulVec y.toList = p.toList) : y.toList = RxSO3Jinvp eps X p := by
+  rw [RxSO3_Jinvp_eq, ← hy]
+  unfold rxso3Jl rxso3JlInv rxso3.toList
+  rw [block31_mulVec, block31_mulVec, ← Mat3.mul_mulVec, so3JlInv_mul_so3Jl eps h0 _ h hs, Mat3.one_mulVec]
+
 /-- `Jinvp` solves `Jl(Log X)·y = p` and is the only solution — for EVERY valid `X` whose rotation angle exceeds `eps` (the guard of the
 code's closed-form branch): the side condition `sin(θ/2) ≠ 0` of `SO3_Jinvp_spec` holds automatically because `θ = ‖Log X‖ ≤ π`. -/
 theorem SO3_Jinvp_spec_valid (eps : ℝ) (h0 : 0 ≤ eps) (he : eps ≤ 1 / 2) (X : Quat ℝ) (hX : SO3.Valid X) (p : Vec3 ℝ)
@@ -403,38 +440,58 @@ theorem RxSO3_Jinvp_spec_valid (eps : ℝ) (h0 : 0 ≤ eps) (he : eps ≤ 1 / 2)
     (rxso3Jl eps (RxSO3Log eps X)).mulVec (RxSO3Jinvp eps X p) = p.toList :=
   RxSO3_Jinvp_spec eps h0 X p h (SO3Log_sin_half_ne_zero eps X.q hX.1 h0 he h)
 
+theorem RxSO3_Jinvp_unique_valid (eps : ℝ) (h0 : 0 ≤ eps) (he : eps ≤ 1 / 2) (X : RxSO3 ℝ) (hX : RxSO3.Valid X) (p y : rxso3 ℝ)
+    (h : eps < (RxSO3Log eps X).phi.norm)
+    (hy : (rxso3Jl eps (RxSO3Log eps X)).mulVec y.toList = p.toList) : y.toList = RxSO3Jinvp eps X p :=
+  RxSO3_Jinvp_unique eps h0 X p y h (SO3Log_sin_half_ne_zero eps X.q hX.1 h0 he h) hy
+
 
 /-- the scale component passes through `Jinvp` unchanged for RxSO3 -/
 theorem RxSO3_Jinvp_sigma (eps : ℝ) (X : RxSO3 ℝ) (p : rxso3 ℝ) :
     (RxSO3Jinvp eps X p).getD 3 0 = p.sigma := by
   rw [RxSO3_Jinvp_eq]; unfold rxso3JlInv rxso3.toList; rw [block31_mulVec]; simp [Vec3.toList]
 
-/-- the hypotheses of `SO3_Jinvp_spec` are satisfiable: `X = (0.6,0,0,0.8)` (rotation by `2·atan(3/4)` about `x`) -/
-example : ∃ eps : ℝ, 0 < eps ∧ eps < (SO3Log eps (⟨0.6, 0, 0, 0.8⟩ : Quat ℝ)).norm ∧
+/-- the hypotheses of `SO3_Jinvp_spec`/`SO3_Jinvp_unique`/`SO3_Jinvp_first_order` hold at the float64 MACHINE epsilon `eps = 2⁻⁵²`
+(the value the code uses) for `X = (0.6,0,0,0.8)` (rotation by `2·atan(3/4)` about `x`). -/
+example : let eps : ℝ := (2 : ℝ)⁻¹ ^ 52
+    0 < eps ∧ eps ≤ 1 / 2 ∧ SO3.Valid (⟨0.6, 0, 0, 0.8⟩ : Quat ℝ) ∧
+    eps < (⟨0.6, 0, 0, 0.8⟩ : Quat ℝ).vec.norm ∧ eps < |(⟨0.6, 0, 0, 0.8⟩ : Quat ℝ).w| ∧
+    eps < (SO3Log eps (⟨0.6, 0, 0, 0.8⟩ : Quat ℝ)).norm ∧
     Real.sin (1 / 2 * (SO3Log eps (⟨0.6, 0, 0, 0.8⟩ : Quat ℝ)).norm) ≠ 0 := by
+  intro eps
   have hat : 0 < Real.arctan (3 / 4) := Real.arctan_pos.mpr (by norm_num)
   have hlt : Real.arctan (3 / 4) < Real.pi / 2 := Real.arctan_lt_pi_div_two _
-  refine ⟨min (1 / 2) (Real.arctan (3 / 4)), lt_min (by norm_num) hat, ?_⟩
-  set eps := min (1 / 2) (Real.arctan (3 / 4)) with he
-  have e1 : eps ≤ 1 / 2 := min_le_left _ _
-  have e2 : eps ≤ Real.arctan (3 / 4) := min_le_right _ _
+  have e0 : 0 < eps := by positivity
+  have e1 : eps ≤ 1 / 2 := by
+    have : (2 : ℝ)⁻¹ ^ 52 ≤ (2 : ℝ)⁻¹ ^ 1 := pow_le_pow_of_le_one (by norm_num) (by norm_num) (by norm_num)
+    simpa [eps] using (by linarith : (2 : ℝ)⁻¹ ^ 52 ≤ 1 / 2)
   have hv : (⟨0.6, 0, 0, 0.8⟩ : Quat ℝ).vec.norm = 3 / 5 := by
     unfold Vec3.norm
     rw [show (⟨0.6, 0, 0, 0.8⟩ : Quat ℝ).vec.normSq = (3 / 5) ^ 2 by lie_unfold; norm_num]
     rw [sqrt_real, Real.sqrt_sq (by norm_num)]
+  have c1 : eps < 3 / 5 := by linarith
+  have c2 : eps < |(0.8 : ℝ)| := by rw [abs_of_pos (by norm_num)]; linarith
   have hlog : SO3Log eps (⟨0.6, 0, 0, 0.8⟩ : Quat ℝ) = ⟨2 * Real.arctan (3 / 4), 0, 0⟩ := by
     unfold SO3Log so3LogFactor
     rw [hv]
-    have c1 : eps < 3 / 5 := by linarith
-    have c2 : eps < |(0.8 : ℝ)| := by rw [abs_of_pos (by norm_num)]; linarith
     simp only [lt_real, sabs_real, c1, c2, decide_true, if_true, atan_real, k_real, Nat.cast_ofNat]
     ext <;> lie_unfold <;> norm_num
   have hn : (SO3Log eps (⟨0.6, 0, 0, 0.8⟩ : Quat ℝ)).norm = 2 * Real.arctan (3 / 4) := by
     rw [hlog]; unfold Vec3.norm
     rw [show (⟨2 * Real.arctan (3 / 4), 0, 0⟩ : Vec3 ℝ).normSq = (2 * Real.arctan (3 / 4)) ^ 2 by lie_unfold; ring]
     rw [sqrt_real, Real.sqrt_sq (by linarith)]
+  have hq : (1 : ℝ) / 4 < Real.arctan (3 / 4) := by
+    have ht : Real.tan (1 / 4) < 3 / 4 := by
+      have hc : 0 < Real.cos (1 / 4) :=
+        Real.cos_pos_of_mem_Ioo ⟨by linarith [Real.pi_pos], by linarith [Real.pi_gt_three]⟩
+      rw [Real.tan_eq_sin_div_cos, div_lt_iff₀ hc]
+      have hs : Real.sin (1 / 4) < 1 / 4 := Real.sin_lt (by norm_num)
+      have hc2 : 1 - (1 / 4 : ℝ) ^ 2 / 2 ≤ Real.cos (1 / 4) := Real.one_sub_sq_div_two_le_cos
+      nlinarith
+    have := Real.arctan_strictMono ht
+    rwa [Real.arctan_tan (by linarith [Real.pi_pos]) (by linarith [Real.pi_gt_three])] at this
+  refine ⟨e0, e1, by unfold SO3.Valid; lie_unfold; norm_num, by rw [hv]; exact c1, c2, by rw [hn]; linarith, ?_⟩
   rw [hn]
-  refine ⟨by linarith, ?_⟩
   apply ne_of_gt
   apply Real.sin_pos_of_pos_of_lt_pi <;> nlinarith [Real.pi_pos]
 
@@ -805,6 +862,144 @@ theorem Sim3_exp_Adj (X : Sim3 ℝ) (hX : Sim3.Valid X) (a : sim3 ℝ) :
     (Sim3matrix X).toMatrix4 * NormedSpace.exp (sim3hat a)
       = NormedSpace.exp (sim3hat (sim3.ofList (Sim3AdjXa X a))) * (Sim3matrix X).toMatrix4 :=
   (SemiconjBy.exp_right (show SemiconjBy _ _ _ from Sim3_hat_Adj X hX a)).eq
+end
+
+
+/-! ## AdjT at matrix level
+
+`AdjT X a = Adj X⁻¹ a` in the code, so the matrix-level statements are those of `Adj` at `Inv X`: `matrix(X⁻¹)·â = (AdjT X a)^·matrix(X⁻¹)`
+and the same through Mathlib's `NormedSpace.exp` of the hat matrices.  NB (as for `*_hat_Adj`/`*_exp_Adj`): `exp` here is the analytic
+matrix exponential of `â`, NOT the model's coded `Exp` (whose Taylor branches differ from it; C01 bounds that difference). -/
+theorem SO3_hat_AdjT (X : Quat ℝ) (hX : SO3.Valid X) (a : Vec3 ℝ) :
+    (SO3matrix X.conj).toMatrix * so3hat a = so3hat (SO3AdjTXa X a) * (SO3matrix X.conj).toMatrix :=
+  SO3_hat_Adj X.conj (SO3_valid_inv X hX) a
+theorem SE3_hat_AdjT (X : SE3 ℝ) (hX : SE3.Valid X) (a : se3 ℝ) :
+    (SE3matrix (SE3Inv X)).toMatrix4 * se3hat a = se3hat (se3.ofList (SE3AdjTXa X a)) * (SE3matrix (SE3Inv X)).toMatrix4 :=
+  SE3_hat_Adj (SE3Inv X) (SE3_valid_inv X hX) a
+theorem RxSO3_hat_AdjT (X : RxSO3 ℝ) (hX : RxSO3.Valid X) (a : rxso3 ℝ) :
+    (RxSO3matrix (RxSO3Inv X)).toMatrix4 * rxso3hat a = rxso3hat (rxso3.ofList (RxSO3AdjTXa X a)) * (RxSO3matrix (RxSO3Inv X)).toMatrix4 :=
+  RxSO3_hat_Adj (RxSO3Inv X) (RxSO3_valid_inv X hX) a
+theorem Sim3_hat_AdjT (X : Sim3 ℝ) (hX : Sim3.Valid X) (a : sim3 ℝ) :
+    (Sim3matrix (Sim3Inv X)).toMatrix4 * sim3hat a = sim3hat (sim3.ofList (Sim3AdjTXa X a)) * (Sim3matrix (Sim3Inv X)).toMatrix4 :=
+  Sim3_hat_Adj (Sim3Inv X) (Sim3_valid_inv X hX) a
+section
+open scoped Matrix.Norms.Operator
+theorem SO3_exp_AdjT (X : Quat ℝ) (hX : SO3.Valid X) (a : Vec3 ℝ) :
+    (SO3matrix X.conj).toMatrix * NormedSpace.exp (so3hat a) = NormedSpace.exp (so3hat (SO3AdjTXa X a)) * (SO3matrix X.conj).toMatrix :=
+  SO3_exp_Adj X.conj (SO3_valid_inv X hX) a
+theorem SE3_exp_AdjT (X : SE3 ℝ) (hX : SE3.Valid X) (a : se3 ℝ) :
+    (SE3matrix (SE3Inv X)).toMatrix4 * NormedSpace.exp (se3hat a)
+      = NormedSpace.exp (se3hat (se3.ofList (SE3AdjTXa X a))) * (SE3matrix (SE3Inv X)).toMatrix4 :=
+  SE3_exp_Adj (SE3Inv X) (SE3_valid_inv X hX) a
+theorem RxSO3_exp_AdjT (X : RxSO3 ℝ) (hX : RxSO3.Valid X) (a : rxso3 ℝ) :
+    (RxSO3matrix (RxSO3Inv X)).toMatrix4 * NormedSpace.exp (rxso3hat a)
+      = NormedSpace.exp (rxso3hat (rxso3.ofList (RxSO3AdjTXa X a))) * (RxSO3matrix (RxSO3Inv X)).toMatrix4 :=
+  RxSO3_exp_Adj (RxSO3Inv X) (RxSO3_valid_inv X hX) a
+theorem Sim3_exp_AdjT (X : Sim3 ℝ) (hX : Sim3.Valid X) (a : sim3 ℝ) :
+    (Sim3matrix (Sim3Inv X)).toMatrix4 * NormedSpace.exp (sim3hat a)
+      = NormedSpace.exp (sim3hat (sim3.ofList (Sim3AdjTXa X a))) * (Sim3matrix (Sim3Inv X)).toMatrix4 :=
+  Sim3_exp_Adj (Sim3Inv X) (Sim3_valid_inv X hX) a
+end
+
+/-! ## Jinvp: the small-angle branch, the identity element, and its meaning as a first-order change of `Log` -/
+
+/-- `‖Log X‖ ≤ eps` (the code uses `coef2 = 1/12`, `Jl` its Taylor coefficients): `Jl(Log X)·Jinvp(X,p)` is not `p` but
+`(1 − (n²/1440)K + (−n/720 + n²/1440)K²)·p`, `n = ‖Log X‖² ≤ eps²`, `K = (Log X)^` — exact. -/
+theorem SO3_Jinvp_spec_taylor_partial (eps : ℝ) (X : Quat ℝ) (p : Vec3 ℝ) (h : ¬ eps < (SO3Log eps X).norm) :
+    (so3Jl eps (SO3Log eps X)).mulVec (SO3Jinvp eps X p)
+      = (polyK 1 (-((SO3Log eps X).normSq ^ 2) / 1440) (-((SO3Log eps X).normSq) / 720 + (SO3Log eps X).normSq ^ 2 / 1440)
+          (SO3Log eps X)).mulVec p := by
+  have hc : (so3Jl eps (SO3Log eps X)).mul (so3JlInv eps (SO3Log eps X)) = (so3JlInv eps (SO3Log eps X)).mul (so3Jl eps (SO3Log eps X)) := by
+    rw [so3JlInv_eq_polyK, so3Jl_eq_polyK, polyK_mul, polyK_mul]; congr 1 <;> ring
+  rw [SO3_Jinvp_eq, ← Mat3.mul_mulVec, hc, so3JlInv_mul_so3Jl_taylor eps _ h]
+/-- at the identity element `Jinvp` is the identity map — SE3 -/
+theorem SE3_Jinvp_one (eps : ℝ) (p : se3 ℝ) : SE3Jinvp eps SE3one p = p.toList := by
+  have hl : SE3Log eps (SE3one : SE3 ℝ) = ⟨Vec3.zero, Vec3.zero⟩ := by
+    unfold SE3Log SE3one; simp only []
+    rw [SO3Log_one, so3JlInv_zero, Mat3.one_mulVec]
+  rw [SE3_Jinvp_eq, hl]
+  show (se3JlInv eps ⟨Vec3.zero, Vec3.zero⟩).mulVec (p.tau.toList ++ p.phi.toList) = p.tau.toList ++ p.phi.toList
+  rw [se3JlInv_mulVec]
+  simp only [so3JlInv_zero, calcQ_zero_phi_tau, Mat3.one_mulVec]
+  congr 1
+  congr 1
+  ext <;> lie_unfold <;> ring
+/-- … RxSO3 -/
+theorem RxSO3_Jinvp_one (eps : ℝ) (p : rxso3 ℝ) : RxSO3Jinvp eps RxSO3one p = p.toList := by
+  have hl : (RxSO3Log eps (RxSO3one : RxSO3 ℝ)).phi = Vec3.zero := by
+    unfold RxSO3Log RxSO3one; simp only []; exact SO3Log_one eps
+  rw [RxSO3_Jinvp_eq]
+  unfold rxso3JlInv rxso3.toList
+  rw [block31_mulVec, hl, so3JlInv_zero, Mat3.one_mulVec]
+/-- … Sim3 -/
+theorem Sim3_Jinvp_one (eps : ℝ) (p : sim3 ℝ) : Sim3Jinvp eps Sim3one p = p.toList := by
+  rw [Sim3_Jinvp_eq, Sim3Log_one, sim3JlInv_zero]
+  obtain ⟨⟨a,b,c⟩,⟨d,e,f⟩,g⟩ := p
+  simp [sim3.toList, Vec3.toList, DMat.one, DMat.mulVec, DVec.basis, DVec.dot, DVec.sum, List.range, List.range.loop]
+
+section
+open AD
+/-- **SE3 `Jinvp` is the first-order change of `Log(Exp(τ)@X)` in direction `p`** (closed-form regime of `SO3_Log`, rotation angle of
+`Log X` above `eps` and above `calcQ`'s switch 0.05): along the left perturbation `t ↦ Exp(t·p)·X` every component of
+`Log` has derivative `Jinvp(X,p)` at `t = 0`.  (The derivative of the coded `Log` is C04's `SE3Log_tangent`; this theorem is where the
+`calcQ` block of `se3_Jl_inv` carries weight — `SE3_Jinvp_spec` holds for ANY matrix in its place.) -/
+theorem SE3_Jinvp_first_order (eps : ℝ) (heps : 0 < eps) (X : SE3 ℝ) (hX : SE3.Valid X) (p : se3 ℝ)
+    (hv : eps < X.q.vec.norm) (hw : eps < |X.q.w|) (hφ : eps < (SE3Log eps X).phi.norm)
+    (hq : (5 : ℝ) / 100 < (SE3Log eps X).phi.norm) (hs : Real.sin (1 / 2 * (SE3Log eps X).phi.norm) ≠ 0) (i : Nat) (hi : i < 6) :
+    HasDerivAt (fun t : ℝ => (SE3Log eps (SE3Retr eps X ⟨p.tau.smul t, p.phi.smul t⟩)).toList.getD i 0)
+      ((SE3Jinvp eps X p).getD i 0) 0 := by
+  have hτ : p.toList.length = Grp.SE3.adim := by simp [se3.toList, Vec3.toList, Grp.adim]
+  have hR := retr_tangent .SE3 eps heps X.toList p.toList hτ
+  have key : ∀ t : ℝ, retrF .SE3 eps X.toList (DVec.smul t p.toList) = (SE3Retr eps X ⟨p.tau.smul t, p.phi.smul t⟩).toList := by
+    intro t
+    simp only [retrF, mulF, expF, AD_tose3_smul, AD_toSE3_toList, SE3Retr]
+  have h0 : SE3Retr eps X ⟨p.tau.smul 0, p.phi.smul 0⟩ = X := by
+    have e : (⟨p.tau.smul 0, p.phi.smul 0⟩ : se3 ℝ) = ⟨Vec3.zero, Vec3.zero⟩ := by
+      congr 1 <;> (ext <;> lie_unfold <;> ring)
+    rw [e]; exact SE3_Retr_zero eps (le_of_lt heps) X
+  have hc0 : retrF .SE3 eps X.toList (DVec.smul 0 p.toList) = X.toList := by rw [key 0, h0]
+  have hlog : ∀ Y : SE3 ℝ, logF .SE3 eps Y.toList = (SE3Log eps Y).toList := by
+    intro Y; simp only [logF, AD_toSE3_toList]
+  have hphi : ∀ Y : SE3 ℝ, AD.v3 (SE3Log eps Y).toList 3 = (SE3Log eps Y).phi := by
+    intro Y; simp [AD.v3, AD.nth, se3.toList, Vec3.toList]
+  have hqt : AD.qt X.toList 3 = X.q := by
+    obtain ⟨⟨t1, t2, t3⟩, ⟨q1, q2, q3, q4⟩⟩ := X
+    simp [AD.qt, AD.nth, SE3.toList, Vec3.toList, Quat.toList]
+  obtain ⟨⟨a0, a1, a2⟩, ⟨a3, a4, a5⟩⟩ := p
+  have hp : (⟨⟨a0, a1, a2⟩, ⟨a3, a4, a5⟩⟩ : se3 ℝ).toList = [a0, a1, a2, a3, a4, a5] := rfl
+  rw [hp] at hR key hc0
+  have hL := SE3Log_tangent eps (le_of_lt heps) (fun t => retrF .SE3 eps X.toList (DVec.smul t [a0, a1, a2, a3, a4, a5])) a0 a1 a2 a3 a4 a5
+    hR (by rw [hc0, hqt]; exact hX) (by rw [hc0, hqt]; exact hv) (by rw [hc0, hqt]; exact hw)
+    (by rw [hc0, hlog, hphi]; exact hφ) (by rw [hc0, hlog, hphi]; exact hq)
+    (by rw [hc0, hlog, hphi]; exact hs)
+  have := hL i hi
+  simp only [hc0, hlog, key] at this
+  simpa [AD.nth, SE3Jinvp, JlInvMat, AD_tose3_toList, hp] using this
+/-- **SO3 `Jinvp` is the first-order change of `Log(Exp(τ)@X)` in direction `p`** (regime 1 of `SO3_Log`, angle above `eps`) -/
+theorem SO3_Jinvp_first_order (eps : ℝ) (heps : 0 < eps) (X : Quat ℝ) (hX : SO3.Valid X) (p : Vec3 ℝ)
+    (hv : eps < X.vec.norm) (hw : eps < |X.w|) (hφ : eps < (SO3Log eps X).norm) (i : Nat) (hi : i < 3) :
+    HasDerivAt (fun t : ℝ => (SO3Log eps (SO3Retr eps X (p.smul t))).toList.getD i 0) ((SO3Jinvp eps X p).toList.getD i 0) 0 := by
+  have hτ : p.toList.length = Grp.SO3.adim := by simp [Vec3.toList, Grp.adim]
+  have hR := retr_tangent .SO3 eps heps X.toList p.toList hτ
+  have key : ∀ t : ℝ, retrF .SO3 eps X.toList (DVec.smul t p.toList) = (SO3Retr eps X (p.smul t)).toList := by
+    intro t
+    simp only [retrF, mulF, expF, AD_v3_smul, AD_qt_toList, SO3Retr]
+  have h0 : SO3Retr eps X (p.smul 0) = X := by
+    have e : p.smul 0 = Vec3.zero := by ext <;> lie_unfold <;> ring
+    rw [e]; exact SO3_Retr_zero eps (le_of_lt heps) X
+  have hc0 : retrF .SO3 eps X.toList (DVec.smul 0 p.toList) = X.toList := by rw [key 0, h0]
+  have hlog : ∀ Y : Quat ℝ, logF .SO3 eps Y.toList = (SO3Log eps Y).toList := by
+    intro Y; simp only [logF, AD_qt_toList]
+  obtain ⟨a0, a1, a2⟩ := p
+  have hp : (⟨a0, a1, a2⟩ : Vec3 ℝ).toList = [a0, a1, a2] := rfl
+  rw [hp] at hR key hc0
+  have hL := SO3Log_tangent eps (le_of_lt heps) (fun t => retrF .SO3 eps X.toList (DVec.smul t [a0, a1, a2])) a0 a1 a2
+    hR (by rw [hc0, AD_qt_toList]; exact hX) (by rw [hc0, AD_qt_toList]; exact hv) (by rw [hc0, AD_qt_toList]; exact hw)
+    (by rw [hc0, hlog, AD_v3_toList]; exact hφ)
+  have := hL i hi
+  simp only [hc0, hlog, key] at this
+  have hv3 : ∀ v : Vec3 ℝ, AD.v3 [v.x, v.y, v.z] = v := by intro v; simp [AD.v3, AD.nth]
+  simpa [AD.nth, SO3Jinvp, JlInvMat, AD_v3_toList, AD.toRows_mulVec, Vec3.toList, hv3] using this
 end
 
 /-! ## non-vacuity of the hypotheses -/
